@@ -1235,6 +1235,61 @@ M("C05", "R-meat-sum-reordered", MDF,
             + self.KCALS_PER_CHICKEN * init_chickens_culled
             + init_small_animals_nonchicken_culled * self.KCALS_PER_SMALL_ANIMAL''', None)
 
+# ---------------------------------------------------------------------------- C07
+M("C07", "revert-F1-fraction", ANIMF,
+  '''                fraction_fed = NE_provided / self.NE_balance.kcals
+                self.NE_balance.kcals -= NE_provided''', '''                self.NE_balance.kcals -= NE_provided
+                fraction_fed = NE_provided / self.NE_balance.kcals''', "C07.FRAC")
+M("C07", "non-ruminant-grass-zeroed", ANIMF,
+  '''            if NE_from_grass > 0:
+                NE_required -= NE_from_grass
+                grass_input.kcals = 0''', '''            if NE_from_grass >= 0:
+                NE_required -= NE_from_grass
+                grass_input.kcals = 0''', "C07.GRASS")
+M("C07", "feed-efficiency-dropped", ANIMF,
+  '''                consumed_feed = NE_required / self.digestion_efficiency["feed"]''', '''                consumed_feed = NE_required''', "C07.NE")
+M("C07", "grass-consumed-with-feed-efficiency", ANIMF,
+  '''            consumed_grass = NE_required / self.digestion_efficiency["grass"]''',
+  '''            consumed_grass = NE_required / self.digestion_efficiency["feed"]''', "C07.NE")
+M("C07", "feed-test-ignores-grass-already-used", ANIMF,
+  '''            if NE_from_feed >= NE_required:
+                consumed_feed = NE_required / self.digestion_efficiency["feed"]''',
+  '''            if NE_from_feed >= NE_required - NE_from_grass:
+                consumed_feed = NE_required / self.digestion_efficiency["feed"]''', "C07.RES")
+M("C07", "fully-fed-sets-fed-to-zero", ANIMF,
+  '''                feed_input.kcals -= consumed_feed
+                self.NE_balance.kcals = 0
+                self.population_fed = self.current_population''', '''                feed_input.kcals -= consumed_feed
+                self.NE_balance.kcals = 0
+                self.population_fed = 0''', "C07.FRAC")
+M("C07", "starving-counts-fed", ANIMF,
+  '''                animal.current_population - animal.population_fed''', '''                animal.population_fed''', "C07.STARVE")
+M("C07", "feeding-order-reversed", ANIMF,
+  '''                key=lambda item: item[1].net_kcals_gained_per_hour_slaughter_this_month,
+                reverse=True,''', '''                key=lambda item: item[1].net_kcals_gained_per_hour_slaughter_this_month,
+                reverse=False,''', "C07.PRIO")
+M("C07", "leftovers-crossed", ANIMF,
+  '''            (available_grass, available_feed) = animal.feed_the_species(''', '''            (available_feed, available_grass) = animal.feed_the_species(''', "C07.PRIO")
+M("C07", "balance-not-reset", ANIMF,
+  '''        for animal in animal_list:
+            animal.reset_NE_balance()
+
+''', '', "C07.PRIO")
+M("C07", "usage-recorded-from-next-month", ANIMF,
+  '''        feed_used.kcals[month] = (
+            available_feed.kcals[month] - feed_available_this_month.kcals
+        )''', '''        feed_used.kcals[month] = (
+            available_feed.kcals[month - 1] - feed_available_this_month.kcals
+        )''', "C07.PRIO")
+M("C07", "R-fraction-inlined-before-update", ANIMF,
+  '''                fraction_fed = NE_provided / self.NE_balance.kcals
+                self.NE_balance.kcals -= NE_provided
+                self.population_fed = round(fraction_fed * self.current_population)''',
+  '''                self.population_fed = round(
+                    self.current_population * NE_provided / self.NE_balance.kcals
+                )
+                self.NE_balance.kcals = self.NE_balance.kcals - NE_provided''', None)
+
 # ---------------------------------------------------------------------------- runner
 
 COPY = ["src", "scenarios", "scripts", "plot_manuscript_figures.py", "tests"]
